@@ -19,6 +19,13 @@ pub fn thread_gone(pid: u32, tid: u32) -> bool {
     r == -3 // ESRCH
 }
 
+/// Probe-side watchdog: SIGALRM (default action: the process dies) after `secs` seconds.
+pub fn alarm(secs: u64) {
+    unsafe {
+        syscall!(ALARM, secs as usize);
+    }
+}
+
 pub fn exit_group(code: i32) -> ! {
     unsafe {
         syscall!(EXIT_GROUP, code as usize);
